@@ -148,3 +148,57 @@ Proof.
   - intros n x Hn. cbn. destruct (str_eqb n name) eqn:E; [|exact Hn]. apply str_eqb_eq in E. subst. congruence.
   - cbn. rewrite str_eqb_refl. reflexivity.
 Qed.
+
+(* ================= totality of the directive machinery ================= *)
+Definition no_crash {A} (r : res A) : Prop := match r with Ok _ | Err _ => True | Panic _ | OutOfFuel => False end.
+
+Lemma set_bool_total c v : no_crash (set_bool c v).
+Proof. destruct c; [exact I|]. destruct v; exact I. Qed.
+Lemma set_string_total c v : no_crash (set_string c v).
+Proof. destruct c; [|exact I]. destruct v; exact I. Qed.
+
+Lemma bind_total {A B} (r : res A) (f : A -> res B) :
+  no_crash r -> (forall a, no_crash (f a)) -> no_crash (bind r f).
+Proof. destruct r; cbn; auto. Qed.
+
+Lemma find_for_total args : forall cur, no_crash (find_for args cur).
+Proof.
+  induction args as [|[n v] r IH]; intro cur; cbn [find_for]; [exact I|].
+  destruct (str_eqb n s_for); [|apply IH].
+  destruct cur; [|exact I]. apply bind_total; [apply set_string_total | intro; apply IH].
+Qed.
+
+Lemma add_args_total args : forall d, no_crash (add_args args d).
+Proof.
+  induction args as [|[n v] r IH]; intro d; cbn [add_args]; [exact I|].
+  repeat match goal with
+         | |- no_crash (if ?c then _ else _) => destruct c
+         | |- no_crash (bind _ _) => apply bind_total; [first [apply set_bool_total | apply set_string_total] | intro; apply IH]
+         end; try apply IH; exact I.
+Qed.
+
+(* add, the comment scan and the merge never crash or loop, whatever the lines contain *)
+Theorem add_total D args : no_crash (add D args).
+Proof.
+  unfold add. apply bind_total; [apply find_for_total|]. intros f. destruct f as [|c r].
+  - apply bind_total; [apply add_args_total | intro; exact I].
+  - destruct (split_dot (c :: r)) as [|tn [|fn [|x y]]]; try exact I.
+    apply bind_total; [apply add_args_total | intro; exact I].
+Qed.
+
+Theorem scan_total ls : forall D h, no_crash (scan ls D h).
+Proof.
+  induction ls as [|l r IH]; intros D h; cbn [scan]; [exact I|].
+  destruct l; try exact I; [|apply IH].
+  apply bind_total; [apply add_total | intro; apply IH].
+Qed.
+
+(* an inline fragment without a type condition (formerly a nil-pointer crash) is converted *)
+Definition w_bare_op : operation :=
+  {| op_kind := 0; op_name := b "Q"; op_extra := 0;
+     op_sel := [SField (b "u") (b "u") (TNamed (b "U") true) (b "Query") 0
+                  [SInline [] 0 [SField (b "id") (b "id") (TNamed (b "ID") true) (b "U") 0 [] 4] 3] 2];
+     op_line := 1; op_src := 0; op_vars := [] |}.
+Theorem bare_inline_fragment_converts :
+  exists r, generate_types w_schema w_cfg [] [[LOther; LOther; LOther; LOther; LOther]] [w_bare_op] = Ok r.
+Proof. eexists. vm_compute. reflexivity. Qed.
